@@ -63,8 +63,9 @@ import (
 //     X5 status ok, R is a contract or the transaction creates one: contracts may move value on, so only
 //        what holds for every contract is checked: bal(S) >= before - fee - v, and the OLT balances of
 //        all accounts together fall by exactly fee (by at least fee when a burn is possible: a coded
-//        account disappeared, a contract's sequence moved (it created something), or a created contract
-//        is missing afterwards).
+//        account disappeared, or the creations the sequence numbers account for - one for a creating
+//        transaction, one per step of a contract's sequence - are not all visible afterwards as new coded
+//        accounts with sequence 1, i.e. something created may be gone again or created something itself).
 //     X6 gas used: intrinsic(data, creation) <= g <= gas limit; g == intrinsic when R carries no code
 //        and is not a precompile address (nothing runs) - the independent anchor for "gas used".
 //     If the exact bytes were already delivered in an EARLIER block the application answers from its
@@ -736,8 +737,12 @@ func (o *c17Oracle) AfterStep(e *core.Engine, idx int, st *core.Step, stepErr er
 			for _, d := range movedBal {
 				sum.Add(sum, d)
 			}
+			// A burn (SELFDESTRUCT naming the contract itself, or a contract created and destroyed within the
+			// transaction) is possible when a coded account disappeared or when not every creation the sequence
+			// numbers account for is visible afterwards as a new coded account that itself created nothing.
+			// Otherwise nothing was destroyed and value only changed hands.
 			burn := false
-			created := false
+			var creations, newCoded uint64
 			for _, k := range changed {
 				a := c17AddrOfKey(k)
 				if a == nil || !strings.HasPrefix(k, "keeper_") || bytes.Equal(a, S) {
@@ -745,19 +750,29 @@ func (o *c17Oracle) AfterStep(e *core.Engine, idx int, st *core.Step, stepErr er
 				}
 				r0, r1 := A.rec(a), B.rec(a)
 				switch {
-				case c17HasCode(r0) && r1 == nil:
+				case c17HasCode(r0) && !c17HasCode(r1):
 					burn = true // destroyed
 				case r0 != nil && r1 != nil && r0.Sequence != r1.Sequence:
-					burn = true // it created something (which may be gone again)
-				case !c17HasCode(r0) && c17HasCode(r1):
-					created = true
-					if r1.Sequence != 1 {
+					if r1.Sequence < r0.Sequence {
 						burn = true
+					} else {
+						creations += r1.Sequence - r0.Sequence // it created something (which may be gone again)
+					}
+				case !c17HasCode(r0) && c17HasCode(r1):
+					newCoded++
+					if r1.Sequence != 1 {
+						burn = true // the new contract created something itself
 					}
 				}
 			}
-			if call.to == nil && !created {
+			if call.to == nil {
+				creations++
+			}
+			if newCoded != creations {
 				burn = true
+			}
+			if !burn && creations > 0 {
+				e.Stats.Probes["c17_contract_creations_all_visible"]++
 			}
 			if burn {
 				e.Stats.Probes["c17_contract_burn_possible"]++
